@@ -66,6 +66,10 @@ type Opts struct {
 	Directives   []string // extra directives that may appear in chains, e.g. "|vfail"
 	Funcs        []string // extra functions taking one argument and returning it
 	ListFuncs    []string // extra functions taking (list, value) and returning a list
+	// Focus names one rarely generated construct that most templates of this case will contain
+	// (swarm testing: every run concentrates on one feature, so that rare features meet the
+	// schedules, histories and faults too).  "" = none; see Features.
+	Focus        string
 	Globals      bool
 	IJ           bool
 	DropRequired float64 // probability that a call omits a required param (a compile error that prints the call)
@@ -297,7 +301,8 @@ func (x *g) expr(t ty, d int) string {
 				// a caller-supplied map on either side, next to a small or an empty literal
 				switch x.pick(5) {
 				case 0:
-					return "augmentMap(['b': " + x.expr(tStr, d-1) + "], " + x.use(ms[0]) + ")"
+					// the small literal comes first and may hold a key the map does not have
+					return "augmentMap([" + []string{"'b'", "'z'", "'extra'"}[x.pick(3)] + ": " + x.expr(tStr, d-1) + "], " + x.use(ms[0]) + ")"
 				case 1:
 					return "augmentMap(" + x.use(ms[0]) + ", [:])"
 				case 2:
@@ -624,6 +629,7 @@ func (x *g) twinOf(m *Node) *Node {
 		return x.hasVar(root)
 	}
 	changed := false
+	var marks []string // variables the twin uses: marked only if the twin is kept
 	var cp func(ns []*Node) []*Node
 	cp = func(ns []*Node) []*Node {
 		var out []*Node
@@ -632,7 +638,7 @@ func (x *g) twinOf(m *Node) *Node {
 			if c.K == "print" && len(c.Dirs) == 0 {
 				if o, ok := swap[c.E]; ok && avail(o) {
 					c.E = o
-					x.used[strings.SplitN(strings.TrimPrefix(o, "$"), ".", 2)[0]] = true
+					marks = append(marks, strings.SplitN(strings.TrimPrefix(o, "$"), ".", 2)[0])
 					changed = true
 				}
 			}
@@ -652,7 +658,49 @@ func (x *g) twinOf(m *Node) *Node {
 	if !changed {
 		return nil
 	}
+	// the original may come from another template or an enclosing block that has ended: every
+	// variable the twin mentions must exist here
+	ok := true
+	var chk func(ns []*Node)
+	chk = func(ns []*Node) {
+		for _, n := range ns {
+			for i := 0; i < len(n.E); i++ {
+				if n.E[i] != '$' {
+					continue
+				}
+				j := i + 1
+				for j < len(n.E) && (n.E[j] == '_' || n.E[j] >= 'a' && n.E[j] <= 'z' || n.E[j] >= 'A' && n.E[j] <= 'Z' || n.E[j] >= '0' && n.E[j] <= '9') {
+					j++
+				}
+				if name := n.E[i+1 : j]; name != "ij" && !x.inScope(name) {
+					ok = false
+				}
+			}
+			chk(n.Body)
+			chk(n.Else)
+			for _, cd := range n.Conds {
+				chk(cd.Body)
+			}
+		}
+	}
+	chk([]*Node{t})
+	if !ok {
+		return nil
+	}
+	for _, m := range marks {
+		x.used[m] = true
+	}
 	return t
+}
+
+// inScope reports whether $name (a param, let or loop variable) is visible here.
+func (x *g) inScope(name string) bool {
+	for _, v := range x.scope {
+		if v.root == name {
+			return true
+		}
+	}
+	return false
 }
 
 func (x *g) msg() *Node {
@@ -817,7 +865,22 @@ func (x *g) template(file int, ns, name string) *Template {
 	x.loops = nil
 	x.mult, x.cost = 1, 1
 	x.used = map[string]bool{}
-	for _, pi := range perm[:np] {
+	chosen := perm[:np]
+	if need := focusNeeds[x.o.Focus]; need != "" {
+		// the focus construct needs this param
+		have := false
+		for _, pi := range chosen {
+			have = have || pool[pi].name == need
+		}
+		if !have {
+			for pi := range pool {
+				if pool[pi].name == need {
+					chosen = append(append([]int{}, chosen...), pi)
+				}
+			}
+		}
+	}
+	for _, pi := range chosen {
 		p := pool[pi]
 		t.Params = append(t.Params, Param{Name: p.name, Optional: p.t == tOptStr})
 		x.scope = append(x.scope, svar{ref: "$" + p.name, t: p.t, root: p.name})
@@ -844,6 +907,12 @@ func (x *g) template(file int, ns, name string) *Template {
 	}
 	t.Private = x.chance(0.1)
 	t.Body = x.block(0, x.o.MaxNodes, false)
+	if x.o.Focus != "" && x.chance(0.7) {
+		if fn := x.focusNode(); fn != nil {
+			at := x.pick(len(t.Body) + 1)
+			t.Body = append(t.Body[:at:at], append([]*Node{fn}, t.Body[at:]...)...)
+		}
+	}
 	// every declared param must be used
 	for _, p := range t.Params {
 		if x.used[p.Name] {
@@ -862,6 +931,154 @@ func (x *g) template(file int, ns, name string) *Template {
 		}
 	}
 	return t
+}
+
+// Features lists the constructs Opts.Focus can name.
+var Features = []string{"augment-into-map", "augment-empty", "augment-onto-empty", "data-expr-call", "msg-only-let", "msg-only-param", "push-onto-range", "push-onto-data", "map-literal-print",
+	"css-expr", "literal", "default-first-switch", "plural-msg", "ifempty", "ij", "global", "nested-let-call"}
+
+// FocusFor draws the focus of a case from its seed: none for two cases in five, otherwise one of
+// the Features.
+func FocusFor(seed uint64) string {
+	r := simrt.NewRNG(seed ^ 0xf0c05)
+	if r.Intn(5) < 2 {
+		return ""
+	}
+	return Features[r.Intn(len(Features))]
+}
+
+// focusNeeds names the pool param a focus construct refers to.
+var focusNeeds = map[string]string{"augment-into-map": "m", "augment-empty": "m", "augment-onto-empty": "m", "data-expr-call": "m", "push-onto-data": "xs", "ifempty": "xs", "plural-msg": "n"}
+
+// focusNode builds the construct named by Opts.Focus in the current template, or nil.
+func (x *g) focusNode() *Node {
+	use := func(name string) string { x.used[name] = true; return "$" + name }
+	switch x.o.Focus {
+	case "augment-into-map":
+		return &Node{K: "print", E: "augmentMap([" + []string{"'z'", "'extra'", "'b'"}[x.pick(3)] + ": " + x.strLit() + "], " + use("m") + ")"}
+	case "augment-empty":
+		return &Node{K: "print", E: "augmentMap(" + use("m") + ", [:])"}
+	case "augment-onto-empty":
+		return &Node{K: "print", E: "augmentMap([:], " + use("m") + ")"}
+	case "data-expr-call":
+		// a callee all of whose required params are fields of the pool map
+		for _, s := range x.sigs {
+			ok := x.cost+x.mult*s.cost <= costLimit
+			for _, p := range s.params {
+				found := p.Optional
+				for _, f := range mapFields {
+					found = found || f.name == p.Name
+				}
+				ok = ok && found
+			}
+			if !ok {
+				continue
+			}
+			x.cost += x.mult * s.cost
+			n := &Node{K: "call", Tmpl: x.callName(s), Data: []string{"augmentMap(" + use("m") + ", [:])", "augmentMap([:], " + use("m") + ")", "augmentMap(" + use("m") + ", ['b': 'over'])"}[x.pick(3)]}
+			for _, p := range s.params {
+				if t, ok := poolType(p.Name); ok && x.chance(0.6) {
+					n.Args = append(n.Args, &Arg{Key: p.Name, E: x.expr(t, 1)})
+				}
+			}
+			return n
+		}
+	case "msg-only-let":
+		if x.o.Msgs {
+			name := x.fresh("l")
+			x.used[name] = true
+			return &Node{K: "if", E: "true", Body: []*Node{
+				{K: "letc", Var: name, Body: []*Node{{K: "text", S: x.text()}, {K: "msg", S: "in a block", Body: []*Node{{K: "text", S: words[x.pick(len(words))] + " " + words[x.pick(len(words))]}}}}},
+				{K: "print", E: "$" + name}}}
+		}
+	case "msg-only-param":
+		if x.o.Msgs {
+			for _, s := range x.sigs {
+				if x.cost+x.mult*s.cost > costLimit {
+					continue
+				}
+				hasStr := false
+				for _, p := range s.params {
+					t, _ := poolType(p.Name)
+					hasStr = hasStr || t == tStr || t == tHtml || t == tOptStr
+				}
+				if !hasStr {
+					continue // (before any expression is drawn: a discarded expression would leave its variables marked as used)
+				}
+				n := &Node{K: "call", Tmpl: x.callName(s)}
+				ok, done := true, false
+				for _, p := range s.params {
+					t, _ := poolType(p.Name)
+					switch {
+					case !done && (t == tStr || t == tHtml || t == tOptStr):
+						n.Args = append(n.Args, &Arg{Key: p.Name, Body: []*Node{{K: "msg", S: "in a param", Body: []*Node{{K: "text", S: words[x.pick(len(words))]}}}}})
+						done = true
+					case !p.Optional:
+						n.Args = append(n.Args, &Arg{Key: p.Name, E: x.expr(t, 1)})
+					}
+				}
+				if ok && done {
+					x.cost += x.mult * s.cost
+					return n
+				}
+			}
+		}
+	case "push-onto-range":
+		if len(x.o.ListFuncs) > 0 {
+			name := x.fresh("i")
+			return &Node{K: "foreach", Var: name, E: x.o.ListFuncs[0] + "(range(" + fmt.Sprint(1+x.pick(3)) + "), " + fmt.Sprint(x.pick(9)) + ")", Body: []*Node{{K: "print", E: "$" + name}}}
+		}
+	case "push-onto-data":
+		if len(x.o.ListFuncs) > 0 {
+			name := x.fresh("i")
+			return &Node{K: "foreach", Var: name, E: x.o.ListFuncs[0] + "(" + use("xs") + ", " + fmt.Sprint(x.pick(9)) + ")", Body: []*Node{{K: "print", E: "$" + name}}}
+		}
+	case "map-literal-print":
+		return &Node{K: "print", E: x.mapLit(1)}
+	case "css-expr":
+		return &Node{K: "css", E: x.expr(tStr, 1), S: "suffix"}
+	case "literal":
+		return &Node{K: "literal", S: []string{"{x} <b>", "}}{{", "lit & <i>", "{/lit}"}[x.pick(4)]}
+	case "default-first-switch":
+		return &Node{K: "switch", E: x.expr(tSmall, 1), S: "default-first", Conds: []*Cond{{E: "0", Body: []*Node{{K: "text", S: "zero"}}}, {E: "1, 2", Body: []*Node{{K: "text", S: "few"}}}}, Else: []*Node{{K: "text", S: "other"}}}
+	case "plural-msg":
+		if x.o.Msgs {
+			return &Node{K: "msg", S: "a plural", Body: []*Node{{K: "plural", E: use("n"), Conds: []*Cond{{E: "1", Body: []*Node{{K: "text", S: "one thing"}}}}, Else: []*Node{{K: "print", E: "$n"}, {K: "text", S: " things"}}}}}
+		}
+	case "ifempty":
+		name := x.fresh("i")
+		return &Node{K: "foreach", Var: name, E: use("xs"), Body: []*Node{{K: "print", E: "$" + name}}, Else: []*Node{{K: "text", S: "none"}}}
+	case "ij":
+		if x.o.IJ {
+			x.usesIJ = true
+			return &Node{K: "print", E: "$ij.user"}
+		}
+	case "global":
+		if x.o.Globals {
+			return &Node{K: "print", E: x.global(tStr)}
+		}
+	case "nested-let-call":
+		for _, s := range x.sigs {
+			if x.cost+x.mult*s.cost > costLimit {
+				continue
+			}
+			ok := true
+			n := &Node{K: "call", Tmpl: x.callName(s)}
+			for _, p := range s.params {
+				if !p.Optional {
+					t, _ := poolType(p.Name)
+					n.Args = append(n.Args, &Arg{Key: p.Name, E: x.expr(t, 1)})
+				}
+			}
+			if ok {
+				x.cost += x.mult * s.cost
+				name := x.fresh("l")
+				x.used[name] = true
+				return &Node{K: "if", E: "true", Body: []*Node{{K: "letc", Var: name, Body: []*Node{n}}, {K: "print", E: "$" + name}, {K: "print", E: "$" + name}}}
+			}
+		}
+	}
+	return nil
 }
 
 // recursive returns a template that calls itself on a decreasing argument; whatever value the
